@@ -113,6 +113,23 @@ def vecInsert {α : Type} (l : List α) (i : Nat) (x : α) : M (List α) :=
 def vecResize {α : Type} (l : List α) (n : Nat) (x : α) : List α :=
   l.take n ++ List.replicate (n - l.length) x
 
+/-! ### `BTreeMap<String, V>` as an association list kept sorted by key (no duplicate keys) -/
+
+def smapGet {α : Type} : List (String × α) → String → Option α
+  | [], _ => none
+  | (k, v) :: r, key => if k = key then some v else smapGet r key
+
+/-- `m.insert(key, x)` (the previous value, which the callers discard, is not returned) -/
+def smapInsert {α : Type} : List (String × α) → String → α → List (String × α)
+  | [], key, x => [(key, x)]
+  | (k, v) :: r, key, x =>
+    if k = key then (k, x) :: r
+    else if key < k then (key, x) :: (k, v) :: r
+    else (k, v) :: smapInsert r key x
+
+def smapRemove {α : Type} (m : List (String × α)) (key : String) : List (String × α) :=
+  m.filter (fun e => e.1 != key)
+
 /-- `a..b` -/
 def range (a b : Nat) : List Nat := List.range' a (b - a)
 
